@@ -627,6 +627,11 @@ VALUE_MUTATORS = {"append", "extend", "insert", "sort", "reverse", "update", "ad
 FRESH_MAKERS = {"list", "dict", "set", "tuple", "frozenset", "sorted", "copy", "deepcopy", "copy.copy", "copy.deepcopy", "OrderedDict", "defaultdict", "deque"}
 
 
+def _own_store(fn, selfname: str, attr: str) -> bool:
+    """A private attribute (one underscore) of the object: state of its own that no caller handed in and no result hands out."""
+    return attr.startswith("_") and not attr.startswith("__")
+
+
 def value_mutations(fn: ast.AST, is_method: bool) -> list:
     """(node, what) for every in-place change of an object the function did not create: a parameter, or the result of
     evaluating / transforming / retrieving something.  ``x += y`` counts: for a list it extends x in place."""
@@ -645,8 +650,10 @@ def value_mutations(fn: ast.AST, is_method: bool) -> list:
             v = n.value
             if isinstance(v, ast.Call) and isinstance(v.func, ast.Attribute) and v.func.attr in ("evaluate", "transform", "get") and (v.args or v.keywords):
                 foreign.setdefault(tg.id, n.lineno)
-            elif is_method and isinstance(v, ast.Attribute) and isinstance(v.value, ast.Name) and v.value.id == selfname and fn.name not in ("__init__", "__setstate__"):
-                # a plain alias of one of the object's own collections: changing it in place changes the object
+            elif is_method and isinstance(v, ast.Attribute) and isinstance(v.value, ast.Name) and v.value.id == selfname and fn.name not in ("__init__", "__setstate__") \
+                    and not _own_store(fn, selfname, v.attr):
+                # a plain alias of one of the object's own collections: changing it in place changes the object (unless the attribute is the
+                # object's private store, which nothing but its own methods ever sees: ``store = self._cache; store[key] = value``)
                 foreign.setdefault(tg.id, n.lineno)
             elif isinstance(v, (ast.List, ast.Dict, ast.Set, ast.ListComp, ast.DictComp, ast.SetComp, ast.Tuple)) or (
                     isinstance(v, ast.Call) and astu.callee_name(v) in FRESH_MAKERS):
@@ -1099,6 +1106,81 @@ def rule_PO(run: Run) -> RuleResult:
                 nec + "; and a key whose value the caller decides must not be dropped (stale cache hit, C01) — including a forced pre-set section, which "
                 "confectioner.mix() merges with the caller's section entry by entry instead of replacing it")
     # (how the two dictionaries are combined — confectioner.mix with its default, merging treatment of sections — is R-MX's obligation)
+    # -- a function that asks ``dotted_key_exists(key, d)`` before it looks a key up looks it up in the dictionary it asked: every
+    # ``get_dotted_key(key, d)`` of such a function is covered by a presence test of the same key in the same dictionary (an enclosing
+    # ``if``, an earlier operand of the same ``and``, an early exit on absence) or sits in a ``try`` that catches KeyError
+    n_lk = 0
+    for m, cls, fn, q in iter_functions(repo):
+        if m.name.startswith("labrea.mypy"):
+            continue
+        own = [x for x in astu.walk_no_nested(fn)]
+        gets = [x for x in own if isinstance(x, ast.Call) and astu.callee_name(x).split(".")[-1] == "get_dotted_key" and len(x.args) >= 2]
+        asks = [x for x in own if isinstance(x, ast.Call) and astu.callee_name(x).split(".")[-1] == "dotted_key_exists" and len(x.args) >= 2]
+        if not gets or not asks:
+            continue
+        amap_ = astu.single_assign_map(fn)
+        pm_ = astu.parent_map(fn)
+
+        def sig(c_):
+            return tuple(ast.unparse(astu.expand_locals(a_, amap_)) for a_ in c_.args[:2])
+
+        def positive(test, want) -> bool:
+            """The test, when true, establishes dotted_key_exists(*want)."""
+            if isinstance(test, ast.Call) and test in asks:
+                return sig(test) == want
+            if isinstance(test, ast.BoolOp) and isinstance(test.op, ast.And):
+                return any(positive(v_, want) for v_ in test.values)
+            return False
+
+        def negative(test, want) -> bool:
+            """The test, when true, establishes that the key is absent (``not dotted_key_exists(...)``, possibly or-ed with more)."""
+            if isinstance(test, ast.UnaryOp) and isinstance(test.op, ast.Not):
+                return positive(test.operand, want) and not isinstance(test.operand, ast.BoolOp)
+            return False
+        for g in gets:
+            if not isinstance(astu.expand_locals(g.args[1], amap_), (ast.Name, ast.Attribute)):
+                continue        # looked up in a dictionary computed on the spot (the mix of two): what it holds is not decided here
+            n_lk += 1
+            want = sig(g)
+            covered = False
+            cur = g
+            while id(cur) in pm_ and not covered:
+                up = pm_[id(cur)]
+                if isinstance(up, ast.BoolOp) and isinstance(up.op, ast.And):
+                    i_ = next(i for i, v_ in enumerate(up.values) if v_ is cur)
+                    covered = any(positive(v_, want) for v_ in up.values[:i_])
+                elif isinstance(up, ast.BoolOp) and isinstance(up.op, ast.Or):
+                    # a later operand of ``or`` is evaluated only when the earlier ones were false: ``not exists(k, d) or <here>``
+                    i_ = next(i for i, v_ in enumerate(up.values) if v_ is cur)
+                    covered = any(negative(v_, want) for v_ in up.values[:i_])
+                elif isinstance(up, (ast.If, ast.IfExp)):
+                    body = up.body if isinstance(up.body, list) else [up.body]
+                    orelse = up.orelse if isinstance(up.orelse, list) else [up.orelse]
+                    if any(cur is b_ for b_ in body):
+                        covered = positive(up.test, want)
+                    elif any(cur is b_ for b_ in orelse):
+                        covered = negative(up.test, want)
+                elif isinstance(up, ast.Try) and any(cur is b_ for b_ in up.body):
+                    covered = any(h_.type is None or any(w in ast.unparse(h_.type) for w in ("KeyError", "LookupError", "Exception")) for h_ in up.handlers)
+                elif isinstance(up, ast.comprehension) or isinstance(up, (ast.ListComp, ast.SetComp, ast.GeneratorExp, ast.DictComp)):
+                    gens = up.generators if not isinstance(up, ast.comprehension) else [up]
+                    covered = any(positive(c_, want) for g_ in gens for c_ in g_.ifs)
+                # an early exit on absence in a statement list before this one
+                for fld in ("body", "orelse", "finalbody"):
+                    blk = getattr(up, fld, None)
+                    if isinstance(blk, list) and any(cur is b_ for b_ in blk):
+                        for prev in blk[:next(i for i, b_ in enumerate(blk) if b_ is cur)]:
+                            if isinstance(prev, ast.If) and negative(prev.test, want) and prev.body and isinstance(prev.body[-1], (ast.Return, ast.Raise, ast.Continue)):
+                                covered = True
+                cur = up
+            res.add(f"{q}:get_dotted_key({', '.join(want)}) covered by a presence test of the same key in the same dictionary", covered, m.relpath, g.lineno,
+                    "covered" if covered else f"line {g.lineno}: this function tests presence with dotted_key_exists (of {sorted({sig(a_) for a_ in asks})}) but looks "
+                    f"{want[0]} up in {want[1]} without having asked there: a KeyError leaves keys()/explain() where a key set is due",
+                    "whenever keys(o) succeeds every reported key is present in o (C03); a raw KeyError out of key inspection makes the cached graph fail where the "
+                    "uncached one returns a value (C01)")
+    res.count("guarded_lookups", n_lk)
+    if n_lk == 0:
+        res.add("labrea:no look-up next to a presence test", True, "", 0, "no function both asks dotted_key_exists and calls get_dotted_key", nec, trivial=True)
     return res
 
 
